@@ -273,11 +273,12 @@ func (q *Queue) Replace(elem *queue.Elem) (replaced bool, err error) {
 	}()
 	id := elem.ID()
 	eb := elem.Encode()
-	stop := q.current - 1
-	if stop < 0 {
-		stop = 0
+	// only the entries in front of the read cursor have been delivered in this connection;
+	// with the cursor at 0 there is none (LRANGE 0 0 would inspect the first entry)
+	if q.current <= 0 {
+		return false, nil
 	}
-	rs, err := redigo.Values(conn.Do("lrange", getKey(q.clientID), 0, stop))
+	rs, err := redigo.Values(conn.Do("lrange", getKey(q.clientID), 0, q.current-1))
 	if err != nil {
 		return false, err
 	}
